@@ -146,6 +146,24 @@ def run(w, rep, tier):
     outs = f(F_max, l, Cm, Ct, T, M)
     omega, Fp, Fm, Ft, Msat = outs[:5]
     n = Fp.r
+    # zero moment demand (pure thrust - hover): constant propagation of M = 0 through the outputs must not select a division
+    # by zero (0 * x / 0 is NaN in the generated code: a blend "c * a / m + (1 - c) * b" evaluates both sides)
+    from ..pointscan import Scan
+    from fractions import Fraction as Fr
+    syms = {nm: [p_.single_atom() for p_ in v.flat()] for nm, v in (("F_max", F_max), ("l", l), ("Cm", Cm), ("Ct", Ct), ("T", T), ("M", M))}
+    for tv in (Fr(-1), Fr(6), Fr(60)):
+        pt = {syms["F_max"][0]: Fr(8), syms["l"][0]: Fr(1, 4), syms["Cm"][0]: Fr(1, 16), syms["Ct"][0]: Fr(1, 4), syms["T"][0]: tv}
+        pt.update({a: Fr(0) for a in syms["M"]})
+        sc = Scan(pt)
+        for o in (Fp, omega):
+            for p_ in o.flat():
+                sc.poly(p_)
+        bad = [(a, why) for a, why in sc.flags if "division" in why]
+        inst = "zero moment demand, T = %s F_max = 8: motor forces and speeds evaluate no division by zero" % tv
+        if bad:
+            rep.fail("C13.clamp", inst, "%s [%s]: with M = (0, 0, 0) every motor command is NaN" % (bad[0][1], short(Poly.atom(bad[0][0]), 80)), where=W)
+        else:
+            rep.ok("C13.clamp", inst, fact={"atoms_visited": len(sc.memo)})
     zero = cm.ZERO
     pre = []
     for i in range(n):
